@@ -23,3 +23,9 @@ M("sf7-no-update-before", "scalar_function.py", "                self._update_fu
 Q("sf1-swapped-args", "scalar_function.py", G, "        if not np.array_equal(self.x, x):\n            self.update_x(x)\n        self._update_grad()\n        return self.g * self.scaling_factor\n", ["SF1"])
 Q("sf2-np-array-copy", "scalar_function.py", "        self.x = np.atleast_1d(x).astype(float)\n        self.f_updated = False\n", "        self.x = np.array(np.atleast_1d(x), dtype=float)\n        self.f_updated = False\n", ["SF2", "BOX"])
 Q("sf4-commuted", "scalar_function.py", "        return self.g * self.scaling_factor\n", "        return self.scaling_factor * self.g\n", ["SF4"])
+
+# ---- SFREAD
+M("sfread-lowest-f-in-main", "main.py", "        f0_old = copy.copy(f0)\n", "        f0_old = copy.copy(min(f0, sf._lowest_f * sf.scaling_factor))\n", ["SFREAD"], canary=True)
+M("sfread-cached-g", "main.py", "        f0_old = copy.copy(f0)\n", "        f0_old = copy.copy(f0)\n        _stale = sf.g\n", ["SFREAD"])
+M("sfread-flag-write", "main.py", "        f0_old = copy.copy(f0)\n", "        f0_old = copy.copy(f0)\n        sf.f_updated = False\n", ["SFREAD"])
+Q("sfread-counter-read", "main.py", "        f0_old = copy.copy(f0)\n", "        f0_old = copy.copy(f0)\n        _n_before = sf.nfev\n", ["SFREAD"])
